@@ -7,6 +7,7 @@ Schedules: preemption-bounded exploration of real threads colliding on shared ca
 from __future__ import annotations
 
 import itertools
+import os
 
 from vf.core import sched
 
@@ -151,8 +152,21 @@ def _years_histories(arg):
             if fresh[sym] != ref.year_start(sym[1]):
                 acc.violation("C13/years/%s/fresh-vs-published/y%d" % (cal_id, sym[1]), "fresh answer %r differs from the published algorithm %r" % (fresh[sym], ref.year_start(sym[1])), {"calendar": cal_id, "query": sym})
     states = set()
-    for d in range(1, depth + 1):
-        for hist in itertools.product(alpha, repeat=d):
+    core = [a for a in alpha if a[0] != "poison"]
+    poison = [a for a in alpha if a[0] == "poison"]
+
+    def histories():
+        for d in range(1, depth + 1):
+            yield from itertools.product(core, repeat=d)
+        # rejected out-of-range operations interposed before / between in-range queries
+        for pz in poison:
+            for q in core:
+                yield (pz, q)
+            for q1 in core:
+                for q2 in core:
+                    yield (q1, pz, q2)
+    for _d in (0,):
+        for hist in histories():
             if caches:
                 _reset_year_caches(caches)
             acc.count(evaluations=1)
@@ -1151,6 +1165,96 @@ def _harness_table(tier):
     return hs
 
 
+# ---- first use in a fresh interpreter -------------------------------------------------------------------------------------
+
+def _fresh_run(name, gran, prefix, sequential=False):
+    import json as _json
+    import subprocess
+    import sys as _sys
+    args = [_sys.executable, "-m", "vf.core.firstuse", name, gran, _json.dumps(prefix)] + (["sequential"] if sequential else [])
+    r = subprocess.run(args, capture_output=True, text=True, timeout=300)
+    line = [ln for ln in r.stdout.splitlines() if ln.startswith("{")]
+    if not line:
+        raise RuntimeError("first-use child failed: %s" % (r.stderr[-400:],))
+    return _json.loads(line[-1])
+
+
+def explore_fresh(name, gran, bound, max_runs):
+    """the sched.explore loop with every execution in a new interpreter; executions of one wave run in parallel"""
+    from concurrent.futures import ThreadPoolExecutor
+    acc = Acc()
+    expected = _fresh_run(name, gran, [], sequential=True)["expected"]
+    d1 = _fresh_run(name, gran, [])
+    d2 = _fresh_run(name, gran, [])
+    if d1.get("trace") != d2.get("trace") or d1.get("results") != d2.get("results"):
+        acc.degrade("first-use harness %s (%s): default schedule not reproducible across interpreters - not explored" % (name, gran))
+        return acc
+    frontier = [[]]
+    runs = 0
+    outcomes = {}
+    capped = False
+    pmax = 0
+    with ThreadPoolExecutor(max_workers=max(2, min(8, (os.cpu_count() or 4) // 2))) as pool:
+        while frontier:
+            if runs >= max_runs:
+                capped = True
+                break
+            batch, frontier = frontier[:max_runs - runs], frontier[max_runs - runs:]
+            results = list(pool.map(lambda pre: (pre, _fresh_run(name, gran, pre)), batch))
+            for prefix, d in results:
+                runs += 1
+                if "divergence" in d:
+                    acc.degrade("first-use harness %s: replay divergence (%s)" % (name, d["divergence"][:80]))
+                    continue
+                trace = d["trace"]
+                pmax = max(pmax, len(trace))
+                errs = [e for e in d["errors"] if e]
+                if d["status"] != "OK":
+                    label = (d["status"],)
+                    what = "first use from two threads does not complete: %s" % d["status"]
+                elif errs:
+                    label = ("error", errs[0].split(":")[0])
+                    what = "first use from two threads raised %s" % errs[0]
+                elif d["results"] != expected:
+                    label = ("wrong",)
+                    what = "first use from two threads returned %r, sequential first use returns %r" % (d["results"], expected)
+                else:
+                    label, what = ("ok",), None
+                outcomes[label] = outcomes.get(label, 0) + 1
+                if what is not None:
+                    acc.violation("C13/first-use/%s/%s" % (name, "-".join(label)), "%s [fresh interpreter, preemption bound %d, %s granularity]" % (what, bound, gran),
+                                  {"kind": "first-use", "entry": name, "granularity": gran, "schedule": [t[0] for t in trace]})
+                cost = 0
+                costs = []
+                for (k, nopt, running_enabled) in trace:
+                    costs.append(cost)
+                    if k > 0 and running_enabled:
+                        cost += 1
+                for i in range(len(prefix), len(trace)):
+                    k, nopt, running_enabled = trace[i]
+                    if costs[i] + (1 if running_enabled else 0) > bound:
+                        continue
+                    for alt in range(1, nopt):
+                        frontier.append([t[0] for t in trace[:i]] + [alt])
+    acc.count(states=runs, evaluations=runs, transitions=runs * max(1, pmax), nontrivial=len(outcomes))
+    for o, n in outcomes.items():
+        acc.outcome("first-use:%s => %r" % (name, o), n)
+    if capped:
+        acc.cap("first-use %s (%s) bound %d capped at %d fresh-interpreter executions" % (name, gran, bound, max_runs))
+    acc.sample({"first_use_entry": name, "granularity": gran, "bound": bound, "fresh_interpreter_executions": runs, "max_points": pmax})
+    return acc
+
+
+def _first_use_shard(arg):
+    name, gran, bound, max_runs = arg
+    try:
+        return explore_fresh(name, gran, bound, max_runs)
+    except Exception as e:  # noqa: BLE001
+        acc = Acc()
+        acc.degrade("first-use harness %s could not run (%s: %s)" % (name, type(e).__name__, str(e)[:100]))
+        return acc
+
+
 _HCFG = {}
 
 
@@ -1266,6 +1370,14 @@ def run(ctx):
     for acc in pmap(_run_harness, range(n)):
         ctx.merge_part("schedules", acc)
     mark("schedules")
+    # first use of lazily initialised state, each execution in a fresh interpreter (0.6 s each): single-preemption space
+    small = ["offset-patterns", "instant-repr", "iso-patterns", "calendar-hebrew"]
+    fu = [(n, "line", 1, 60) for n in small[:2]]
+    if tier != "quick":
+        fu = [(n, "line", 1, 2500) for n in small + ["calendar-islamic", "weekyear-rules", "tzdb-provider", "fixed-zones"]]
+    for acc in pmap(_first_use_shard, fu, procs=4):
+        ctx.merge_part("first_use_fresh_interpreter", acc)
+    mark("first_use")
     ctx.note("phase_wall_s", phase)
     ctx.exhaustive = not ctx.caps
 
